@@ -247,6 +247,9 @@ pub fn c05() -> Outcome {
         let mut i = inst(vec![dv(0, Kind::Continuous, None), dv(1, Kind::Continuous, None), dv(2, Kind::Continuous, None)], f_of(F::Constant(0.0)),
             vec![con(11, Equality::EqualToZero, f_of(F::Linear(lin(&[(0, 1.0)], 0.0)))), con(12, Equality::LessThanOrEqualToZero, f_of(F::Linear(lin(&[(1, 1.0)], 0.0)))),
                  con(13, Equality::LessThanOrEqualToZero, f_of(F::Linear(lin(&[(2, 1.0)], 0.0))))]);
+        // metadata of each constraint (name, description, subscripts, parameters) is reported with it
+        for (k, c) in i.constraints.iter_mut().enumerate() { c.name = Some(format!("con{k}")); c.description = Some(format!("the constraint number {k}")); c.subscripts = vec![k as i64, -7]; c.parameters = [("p".to_string(), format!("q{k}"))].into_iter().collect(); }
+        let meta: Vec<(u64, Option<String>, Option<String>, Vec<i64>, HashMap<String, String>)> = i.constraints.iter().map(|c| (c.id, c.name.clone(), c.description.clone(), c.subscripts.clone(), c.parameters.clone())).collect();
         i.relax_constraint(13, "why".to_string(), [("k".to_string(), "v".to_string())].into_iter().collect()).unwrap();
         let (sol, _) = match i.evaluate(&state(&[(0, *va), (1, *vb), (2, *vc)])) { Ok(s) => s, Err(e) => return Outcome { cases: n, distinct: d.len(), fail: Some(format!("evaluate failed: {e}")) } };
         let h1 = va.abs() < 1e-6; let h2 = *vb < 1e-6; let h3 = *vc < 1e-6;
@@ -258,6 +261,9 @@ pub fn c05() -> Outcome {
         if ev != vec![*va, *vb, *vc] { return Outcome { cases: n, distinct: d.len(), fail: Some(format!("constraint values {ev:?}, expected {:?}", [va, vb, vc])) }; }
         if sol.feasible_relaxed != Some(h1 && h2) || sol.feasible != (h1 && h2 && h3) {
             return Outcome { cases: n, distinct: d.len(), fail: Some(format!("values ({va}, {vb}, removed {vc}): feasible_relaxed={:?} feasible={}, expected {:?} / {}", sol.feasible_relaxed, sol.feasible, Some(h1 && h2), h1 && h2 && h3)) };
+        }
+        for (ec, m) in sol.evaluated_constraints.iter().zip(meta.iter()) {
+            if (ec.id, &ec.name, &ec.description, &ec.subscripts, &ec.parameters) != (m.0, &m.1, &m.2, &m.3, &m.4) { return Outcome { cases: n, distinct: d.len(), fail: Some(format!("constraint {} is reported with name {:?} description {:?} subscripts {:?} parameters {:?}; the instance says {m:?}", ec.id, ec.name, ec.description, ec.subscripts, ec.parameters)) }; }
         }
         let rc = &sol.evaluated_constraints[2];
         if rc.removed_reason.as_deref() != Some("why") || rc.removed_reason_parameters.get("k").map(|s| s.as_str()) != Some("v") || sol.evaluated_constraints[0].removed_reason.is_some() {
